@@ -11,6 +11,7 @@ From Cvg Require Import Base GoTypes Dump Options Front Builder Gen ValSem.
 From Cvg.proofs Require Import BuilderProofs ValSemProofs.
 From Cvg Require Import GoLib GoFuns.
 From Cvg.proofs Require Import GenTieProofs.
+From Cvg.proofs Require Import UtilTieProofs.
 Open Scope N_scope.
 
 (** copy() only between identical basic element types; a plain element loop when
@@ -77,3 +78,16 @@ Theorem C16_text_is_what_the_go_code_prints :
   forall f, GoGen.FuncToString (lower_function f) = func_to_string f.
 Proof. exact func_to_string_tie. Qed.
 Print Assumptions C16_text_is_what_the_go_code_prints.
+
+(** Tie to the source: what makes a field a slice field (util.IsSliceType: the type itself, not its underlying type). [GoUtil.IsSliceType] etc. are /repo's pkg/util/types.go
+    translated on every run (a type assertion to a class of go/types is the recogniser of the model's
+    constructor); the model's predicates are proved equal to them. *)
+Theorem C16_type_predicates_are_the_go_code :
+  forall t,
+    GoUtil.IsSliceType t = is_slice t /\ GoUtil.IsBasicType t = is_basic t /\ GoUtil.IsNamedType t = is_named t /\
+    GoUtil.IsPtr t = is_ptr t /\ GoUtil.DerefPtr t = deref_ptr t /\ GoUtil.Deref t = (deref_ptr t, is_ptr t).
+Proof.
+  intros t.
+  exact (conj (is_slice_tie t) (conj (is_basic_tie t) (conj (is_named_tie t) (conj (is_ptr_tie t) (conj (deref_ptr_tie t) (deref_tie t)))))).
+Qed.
+Print Assumptions C16_type_predicates_are_the_go_code.
